@@ -21,7 +21,7 @@ Proof.
   cbv zeta. rewrite (analyze_stats_greater logistic_family cfg_low 1 1 2 1 1 2 eq_refl).
   cbn [mr_effect_size_ci_lower mr_effect_size ext_le cfg_low cfg_equal_var cfg_use_t cfg_confidence_level se_of null_of
        logistic_family norm_ logistic isf].
-  replace (1 / 2 + 1 / 2) with 1 by lra. rewrite sqrt_1.
+  replace (1 / 2 + 1 / 2) with 1 by lra. rewrite (Rmax_left 1 0) by lra. rewrite sqrt_1.
   unfold lppf. replace ((1 - 3 / 10) / (1 - (1 - 3 / 10))) with (7 / 3) by lra.
   assert (0 < ln (7 / 3)).
   { rewrite <- ln_1. apply ln_increasing; lra. }
